@@ -106,6 +106,11 @@ retry_fetch_lv:
             v_at_fetch_lv.get_vinsert_delete()) {
             goto retry_fetch_lv; // NOLINT
         }
+        if constexpr (!is_inlinable<ValueType>()) {
+            // removes are not counted in the node version: a slot cleared by a
+            // concurrent remove is seen under an unchanged version.
+            if (vp == nullptr) { goto retry_fetch_lv; } // NOLINT
+        }
         out = std::make_pair(v_body, value::get_len(vp));
         return status::OK;
     }
